@@ -161,6 +161,11 @@ def run(spec):
 
             sf = prepare_scalar_function(fun, x0.copy(), jac=jac if mode == "callable" else "2-point", args=(), epsilon=1e-8,
                                          bounds=(lb, ub), finite_diff_rel_step=None)
+            if rng.random() < 0.3:
+                # the solver may have set a scaling factor on the wrapper (gradient scaler): values and slopes are scaled alike
+                sf.scaling_factor = float(np.exp(rng.uniform(np.log(1e-2), np.log(1e2))))
+                out.count("calls_with_scaling_factor")
+            scale = sf.scaling_factor
             f0 = sf.fun(x0.copy())
             g0 = sf.grad(x0.copy())
             if not (np.isfinite(f0) and np.all(np.isfinite(g0))):
@@ -190,6 +195,8 @@ def run(spec):
                 # stencil points differ from the trial by ~1e-8 and are never within 8 ulp of x0 + a*d, so matching is unaffected
                 pass
             nv = len(out.violations)
+            if scale != 1.0:
+                snapshot = [(k, p, (v * scale if k == "f" else v)) for k, p, v in snapshot]
             if mode == "callable":
                 judge_call(out, x0, d, lb, ub, f0, cap, above, max_user, ret, snapshot, where, dict(family=fam, mode=mode))
             else:
